@@ -253,7 +253,7 @@ PROPS['C03'] = dict(
             dict(name='rw', variant='checks', shrink=False, quick=dict(count=400, timeout=900), thorough=dict(count=8000, timeout=3000))],
     rule='corr.eval: 1-2 start terms over the arithmetic fragment of the main language (add, mul, numbers, symbols, var, sum $x, '
          'let $x, h, k; depth 2-3; slots occur only through (var $x), which is what makes b[(var $x) := t] meaningful), a random '
-         'subset of 2-8 rules of the 34-rule pool proved valid in Lean, 1-4 apply_rewrites iterations within a node budget, with '
+         'subset of 2-8 rules of the 35-rule pool proved valid in Lean, 1-4 apply_rewrites iterations within a node budget, with '
          'SynExprSubst (2/3) or ExtractionSubst (1/3), side conditions either as closures or through the crate\'s slot_free_in/and '
          'helpers (1/2 each). Afterwards, per live class: every e-node with its children replaced by representative terms (built by the '
          'harness bottom-up from enodes(), binders renamed apart), plus the originally inserted term, is evaluated by the Lean model '
